@@ -345,6 +345,17 @@ func (t Timer) Reset(d time.Duration) bool {
 	was := t.t.active
 	t.t.active = true
 	t.t.deadline = s.now.Add(d)
+	// a timer that already fired was pruned from the pending list: re-register it
+	found := false
+	for _, x := range s.timers {
+		if x == t.t {
+			found = true
+			break
+		}
+	}
+	if !found {
+		s.timers = append(s.timers, t.t)
+	}
 	return was
 }
 
